@@ -465,7 +465,7 @@ def check_encode_cat(ctx, n_cases):
     for it in range(n_cases + 1):
         if it == n_cases:
             for (case, f), mo in zip(model_metas, ctx.get_model().batch(model_reqs)):
-                if list(mo) != list(f): ctx.disagree("C13.encode_cat", case, f, mo)
+                if [list(x) if isinstance(x, (list, tuple)) else x for x in mo] != [list(x) if isinstance(x, (list, tuple)) else x for x in f]: ctx.disagree("C13.encode_cat", case, f, mo)
             break
         tipe = rng.choice(["onehot", "onehot_tuple", "string"]); kind = rng.choice(["list", "list", "dict"]); n = rng.randrange(1, 5)
         shared = [cat(), rng.randrange(9)] if rng.random() < 0.3 else None      # one nested list object held by every row
@@ -490,6 +490,13 @@ def check_encode_cat(ctx, n_cases):
             ctx.fail(["encode-cat", "source-rows-modified"], "EncodeCatRows(%r) changed the rows it was given: %r -> %r" % (tipe, before, norm(rows)), case); continue
         if first != second:
             ctx.fail(["encode-cat", "second-pass-differs"], "EncodeCatRows(%r): a second pass over the same rows gives %r, the first gave %r" % (tipe, second, first), case); continue
+        if kind == "dict" and shape == "flat" and tipe == "onehot":      # the sparse flat form: the entry of the categorical goes, name_level -> 1 comes
+            for r, f in zip(rows, first):
+                if not isinstance(f, dict): continue
+                want = [[1, -1, v] if k == "a" else [2, int(str(k)[len(str(ckey)) + 1:]), v] for k, v in f.items() if k == "a" or str(k).startswith(str(ckey) + "_")]
+                if len(want) != len(f): continue
+                c = r[ckey]
+                model_reqs.append((413, [2, [[1, [], [0, r["a"]]], [2, [], [1, list(c.levels).index(str(c)), len(c.levels)]]]])); model_metas.append((case, want))
         if kind == "list" and tipe == "onehot" and shared is None:      # rows with collections nested to any depth: the extracted model of the recursion
             def wire(x): return [1, list(x.levels).index(str(x)), len(x.levels)] if isinstance(x, Categorical) else [2, [wire(y) for y in x]] if isinstance(x, (list, tuple)) else [0, x]
             for r, f in zip(rows, first): model_reqs.append((313, wire(r))); model_metas.append((case, f))
